@@ -4,6 +4,8 @@ import (
 	"flag"
 	"fmt"
 	"os"
+
+	"github.com/hashicorp/hcl-lang/lang"
 )
 
 func init() { commands["probe"] = cmdProbe }
@@ -15,6 +17,7 @@ func cmdProbe(fs *flag.FlagSet) {
 	srcPath := fs.String("src", "", "path of a file with the buffer content (default: the world's document)")
 	kind := fs.String("kind", "tokens", "query kind")
 	at := fs.Int("at", 0, "byte offset")
+	scan := fs.Bool("scan", false, "scan every offset for completion snippets with repeated tab-stops")
 	fs.Parse(os.Args[2:])
 	w := worldByName(*world)
 	if *file == "" {
@@ -31,6 +34,33 @@ func cmdProbe(fs *flag.FlagSet) {
 		env.SetFile("p1", *file, src)
 	}
 	env.Recollect(nil, "p1")
+	if *scan {
+		// every offset: completion snippets whose tab-stops are repeated or not consecutive
+		seen := map[string]bool{}
+		for _, pos := range Boundaries(src) {
+			for _, pf := range []bool{false, true} {
+				o := env.Run(nil, Q{Kind: "completion", Path: "p1", File: *file, Pos: pos, Prefill: pf})
+				if cl, ok := o.Value.(lang.Candidates); ok {
+					for _, c := range cl.List {
+						st := stopsOf(c.TextEdit.Snippet)
+						bad := false
+						m := map[int]bool{}
+						for _, x := range st {
+							if m[x] {
+								bad = true
+							}
+							m[x] = true
+						}
+						if bad && !seen[c.TextEdit.Snippet] {
+							seen[c.TextEdit.Snippet] = true
+							fmt.Printf("@%d prefill=%v %q -> %q %v\n", pos.Byte, pf, c.Label, c.TextEdit.Snippet, st)
+						}
+					}
+				}
+			}
+		}
+		return
+	}
 	o := env.Run(nil, Q{Kind: *kind, Path: "p1", File: *file, Pos: PosAt(src, *at)})
 	s, rs := observe(o)
 	fmt.Println(o.Status, o.Err, o.Site)
